@@ -1,6 +1,10 @@
 import PromModel.Tsdb.Merge
 import PromProofs.GoHeap
 import PromProofs.Merge
+import PromProofs.MergeTotal
+import PromProofs.MergeSeek
+import PromProofs.MergeSets
+import PromProofs.MergeChunks
 /-
   C19 — Merging series sets de-duplicates without losing data.
   Property theorems only; helper lemmas live in PromProofs/GoHeap.lean and PromProofs/Merge.lean.
@@ -9,11 +13,15 @@ import PromProofs.Merge
     * the transcribed `container/heap` is a priority queue (`goheap_push_spec`, `goheap_pop_spec`);
     * `chain_next_step_spec`  — every `Next` of a started `chainSampleIterator` returns the least pending
       timestamp above `lastT`, taken from an input, and re-establishes the invariant;
-    * `chain_next_spec_partial` — draining a fresh chain with `Next` yields strictly increasing timestamps,
-      every sample from an input, every input timestamp present (partial = stated for runs that end
-      without the model's fuel guard firing; see `chain_next_total_full`).
-  Stated but not proved (kept visible as `…_full : Prop`): Seek scripts, the merged series *set*, and the
-  chunk-level clauses; for these the tie is the correspondence suite and the judge alone.
+    * `chain_next_total`, `chain_next_spec` — draining a fresh chain over ≥ 1 sorted inputs always ends
+      normally (the model's fuel guards never fire) with strictly increasing timestamps, every sample from
+      an input, every input timestamp present (`chain_next_spec_partial` is the conditional form);
+    * `chain_seek_spec` — ANY Next/Seek script is answered like a list iterator over the sorted
+      de-duplicated union of the inputs' timestamps (`chain_seek_spec_full`);
+    * `merge_sets_sorted_unique`, `merge_sets_groups` — the merged series set (`merge_sets_sorted_unique_full`);
+    * `compact_chunks` — the compacting chunk merger (repaired statement).
+  Proved false as literally stated (`…_witness`): `chain_next_total_full` (zero inputs panic) and
+  `compact_chunks_full` (the winner among equal timestamps depends on the order of entry into the heap).
 -/
 namespace Prom.C19
 open Prom.Merge Prom.GoHeap
@@ -91,11 +99,55 @@ example : (Chain.ofLists ([[⟨1, .float, 10⟩, ⟨3, .float, 11⟩], [⟨1, .f
     = some ([⟨1, .float, 20⟩, ⟨2, .hist, 6⟩, ⟨3, .float, 11⟩], [⟨1, .float, 20⟩, ⟨2, .hist, 4⟩, ⟨3, .float, 11⟩]) := by
   decide
 
-/-- Missing for the unconditional `chain_next_spec`: the model's fuel guard never fires, i.e. draining
-    well-formed error-free inputs always ends (`loopFuel` bounds the loop: every round consumes a sample
-    or retires an iterator). Not proved. -/
+/-- The model's fuel guard never fires, i.e. draining well-formed error-free inputs always ends
+    (`loopFuel` bounds the loop: every round consumes a sample or retires an iterator).  As stated (zero
+    inputs allowed) it is false — `chain_next_total_full_witness`; for ≥ 1 input it is `chain_next_total`. -/
 def chain_next_total_full : Prop :=
   ∀ inputs, InputsOK inputs → (Chain.ofLists (inputs.map fun l => (l, false))).drain ≠ none
+
+/-- `chain_next_total_full` as literally stated is false: with zero inputs the first `Next` indexes
+    `c.iterators[0]` and panics (`chain_zero_iterators_panics_witness`), so the drain does not end
+    normally.  The statement for at least one input is `chain_next_total`. -/
+theorem chain_next_total_full_witness : ¬ chain_next_total_full := by
+  intro h
+  exact h [] (by intro l hl; simp at hl) (by decide)
+
+/-- The model's fuel guards never fire and no error/panic surfaces: draining at least one sorted,
+    error-free input (timestamps above `MinInt64`) always ends normally. -/
+theorem chain_next_total (inputs : List (List Sample)) (hne : inputs ≠ []) (hin : InputsOK inputs) :
+    (Chain.ofLists (inputs.map fun l => (l, false))).drain ≠ none := by
+  have hf := ofLists_fresh inputs hin
+  have hne' : (Chain.ofLists (inputs.map fun l => (l, false))).its ≠ [] := by
+    intro h0
+    have := ofLists_rest inputs
+    rw [h0] at this
+    exact hne this.symm
+  have hn := next_fresh2 _ hf hne'
+  unfold Chain.drain Chain.drainAux
+  cases hnx : (Chain.ofLists (inputs.map fun l => (l, false))).next with
+  | mk c' res =>
+    rw [hnx] at hn
+    cases res with
+    | val s =>
+      obtain ⟨_, _, cur', h', st', _, hlt, _, _⟩ := hn
+      exact drain_run _ c' cur' h' _ _ st' (by omega)
+    | fin => simp
+    | err => exact hn.elim
+    | panic => exact hn.elim
+
+/-- `chain_next_spec`, unconditional: for at least one sorted input the drain ends normally and its
+    result is strictly increasing, consists of input samples and covers every input timestamp. -/
+theorem chain_next_spec (inputs : List (List Sample)) (hne : inputs ≠ []) (hin : InputsOK inputs) :
+    ∃ raw out, (Chain.ofLists (inputs.map fun l => (l, false))).drain = some (raw, out) ∧
+      SortedL raw ∧ (∀ s ∈ raw, ∃ l ∈ inputs, s ∈ l) ∧ (∀ l ∈ inputs, ∀ p ∈ l, p.t ∈ raw.map (·.t)) := by
+  cases hd : (Chain.ofLists (inputs.map fun l => (l, false))).drain with
+  | none => exact (chain_next_total inputs hne hin hd).elim
+  | some ro => exact ⟨ro.1, ro.2, rfl, chain_next_spec_partial inputs hin ro.1 ro.2 hd⟩
+
+example : InputsOK [[⟨1, .float, 10⟩, ⟨3, .float, 11⟩], [⟨1, .float, 20⟩]] := by
+  intro l hl
+  simp only [List.mem_cons, List.not_mem_nil, or_false] at hl
+  rcases hl with rfl | rfl <;> (constructor <;> simp [SortedL, MinI64])
 
 /-- FC19a: `lastT` starts at `math.MinInt64` and a sample whose timestamp equals `lastT` is skipped, so
     chaining drops a sample at `t = MinInt64` (reproduced on the real code by suite `merge`). -/
@@ -108,9 +160,10 @@ theorem chain_drops_minint64_witness :
 theorem chain_zero_iterators_panics_witness : ((Chain.mk' []).next).2 = .panic := by
   decide
 
-/-! ### stated, not proved (the correspondence suite and the judge cover them) -/
+/-! ### Seek scripts, the merged series set, chunk mergers -/
 
-/-- expected result of any Next/Seek script on a merged sequence `U` of timestamps -/
+/-- expected result of any Next/Seek script on a merged sequence `U` of timestamps
+    (proved: `chain_seek_spec`) -/
 def chain_seek_spec_full : Prop :=
   ∀ inputs, InputsOK inputs → ∀ (script : List (Option Int)),
     -- every `Seek t` (some t) / `Next` (none) answers as the list iterator over the merged sequence would
@@ -124,7 +177,22 @@ def chain_seek_spec_full : Prop :=
       (It.ofList 0 (((inputs.flatten.map (·.t)).mergeSort (· ≤ ·)).eraseDups.map fun t => ⟨t, .float, 0⟩), [])
     run.2 = spec.2
 
-/-- merged series set: label sets strictly increasing and equal to the union of the inputs' label sets -/
+/-- `chain_seek_spec_full` holds — for EVERY script (also backward seeks, seeks before the first
+    `Next`, calls after the end): the chain answers as the list iterator over the sorted de-duplicated
+    union of the inputs' timestamps (simulation `Prom.Merge.Sim`, PromProofs/MergeSeek.lean). -/
+theorem chain_seek_spec : chain_seek_spec_full := by
+  intro inputs hin script
+  exact script_sim script _ _ [] (sim_init inputs hin)
+
+/-- instance: Seek 2 lands on 2 (second input), Next gives 3, Seek 1 (backwards) stays on 3, Next ends -/
+example : ([some 2, none, some 1, none, none].foldl (fun (acc : Chain × List (Option Int)) op =>
+      let (c', r) := match op with | some t => acc.1.seek t | none => acc.1.next
+      (c', acc.2 ++ [match r with | .val s => some s.t | _ => none]))
+      (Chain.ofLists ([[⟨1, .float, 10⟩, ⟨3, .float, 11⟩], [⟨1, .float, 20⟩, ⟨2, .hist, 6⟩]].map fun l => (l, false)), [])).2
+    = [some 2, some 3, some 3, none, none] := by decide
+
+/-- merged series set: label sets strictly increasing and equal to the union of the inputs' label sets
+    (proved: `merge_sets_sorted_unique`) -/
 def merge_sets_sorted_unique_full : Prop :=
   ∀ (sets : List (List (Labels × Nat))),
     (∀ s ∈ sets, s.Pairwise fun a b => Labels.compare a.1 b.1 = .lt) →
@@ -133,12 +201,123 @@ def merge_sets_sorted_unique_full : Prop :=
     (out.map fun ss => (ss.head?.map (·.1)).getD []).Pairwise (fun a b => Labels.compare a b = .lt) ∧
     ∀ l, (∃ ss ∈ out, ∃ x ∈ ss, x.1 = l) ↔ ∃ s ∈ sets, ∃ x ∈ s, x.1 = l
 
+/-- `merge_sets_sorted_unique_full` holds.  Proved at the level of series (PromProofs/MergeSets.lean,
+    `merge_sets_spec`, for any series type): the groups handed to the vertical merge come out in strictly
+    increasing `labels.Compare` order, each group is non-empty and carries ONE label set, and the groups
+    together contain exactly the input series (so also: every series with that label set is in the group). -/
+theorem merge_sets_sorted_unique : merge_sets_sorted_unique_full := by
+  intro sets hs
+  obtain ⟨h1, _, h3⟩ := merge_sets_spec (σ := Labels × Nat) (·.1) sets hs
+  refine ⟨h1, ?_⟩
+  intro l
+  constructor
+  · rintro ⟨ss, hss, x, hx, rfl⟩
+    obtain ⟨s, hs', hxs⟩ := List.mem_flatten.1 ((h3 x).1 ⟨ss, hss, hx⟩)
+    exact ⟨s, hs', x, hxs, rfl⟩
+  · rintro ⟨s, hs', x, hx, rfl⟩
+    obtain ⟨g, hg, hxg⟩ := (h3 x).2 (List.mem_flatten.2 ⟨s, hs', hx⟩)
+    exact ⟨g, hg, x, hxg, rfl⟩
+
+/-- series-level form of the same fact: every group is non-empty, carries one label set, and the groups
+    partition the input series -/
+theorem merge_sets_groups (sets : List (List (Labels × Nat)))
+    (hs : ∀ s ∈ sets, s.Pairwise fun a b => Labels.compare a.1 b.1 = .lt) :
+    let out := (MSet.drainAux (·.1) (sets.flatten.length + 1)
+      (MSet.new (·.1) (sets.zipIdx.map fun (s, i) => SetIt.ofList i s) 0) []).1
+    (∀ g ∈ out, g ≠ [] ∧ ∀ x ∈ g, x.1 = (g.head?.map (·.1)).getD []) ∧
+      ∀ x, (∃ g ∈ out, x ∈ g) ↔ ∃ s ∈ sets, x ∈ s := by
+  obtain ⟨_, h2, h3⟩ := merge_sets_spec (σ := Labels × Nat) (·.1) sets hs
+  exact ⟨h2, fun x => by rw [h3 x, List.mem_flatten]⟩
+
+example : (MSet.drainAux (σ := Labels × Nat) (·.1) 5 (MSet.new (·.1)
+      ([[([("a", "1")], 0), ([("a", "2")], 1)], [([("a", "1")], 2)], []].zipIdx.map fun (s, i) => SetIt.ofList i s) 0) []).1
+    = [[([("a", "1")], 0), ([("a", "1")], 2)], [([("a", "2")], 1)]] := by decide
+
 /-- compacted chunks are ordered and disjoint, hold the chain merge of all input samples, and a chunk
-    overlapped only by identical copies comes out once, unchanged -/
+    overlapped only by identical copies comes out once, unchanged.  FALSE as stated
+    (`compact_chunks_full_witness`); the repaired statement is `compact_chunks`. -/
 def compact_chunks_full : Prop :=
   ∀ (series : List (List Chunk)) out, compactAll series = (out, .fin) →
     (out.Pairwise fun a b => a.maxt < b.mint) ∧
     some (out.flatMap (·.samples)) = chainMerge (series.flatten.map (·.samples))
+
+/-- `compact_chunks_full` as literally stated is FALSE, even for clean float data: it demands equality
+    of VALUES with `chainMerge` of the chunks in `series.flatten` order, but which input wins among equal
+    timestamps depends on the order the iterators enter the chain's heap, and the compacting merger chains
+    `overlapped ++ [curr]`, not the flattened order.  Three one-chunk series `[1→1]`, `[1→2]`, `[2→3]`:
+    the merger keeps value 1 at t = 1, `chainMerge` of the flattened inputs keeps value 2.  (Prometheus
+    leaves the winner among duplicate timestamps with different values unspecified, so this is not a
+    defect.)  Two more reasons, each sufficient: a chunk that overlaps nothing is passed through with its
+    bytes, so a histogram keeps its counter-reset hint and a sample at `MinInt64` survives, whereas
+    `chainMerge` resets the hint (`Chain.atSample`) and drops `MinInt64` (FC19a); and the statement has no
+    well-formedness hypothesis on chunk metas.  The provable content — order/disjointness, timestamps =
+    sorted de-duplicated union, every value from an input — is `compact_chunks`. -/
+theorem compact_chunks_full_witness : ¬ compact_chunks_full := by
+  intro h
+  have := (h [[Chunk.ofSamples [⟨1, .float, 1⟩]], [Chunk.ofSamples [⟨1, .float, 2⟩]], [Chunk.ofSamples [⟨2, .float, 3⟩]]]
+    [Chunk.ofSamples [⟨1, .float, 1⟩], Chunk.ofSamples [⟨2, .float, 3⟩]] (by decide)).2
+  revert this
+  decide
+
+/-- every chunk series well-formed: chunks non-empty, samples strictly increasing, inside the meta range
+    and above `MinInt64` (`ChunkOK`), chunks of one series time-ordered and disjoint -/
+def ChunkSeriesOK (series : List (List Chunk)) : Prop :=
+  ∀ cs ∈ series, (∀ c ∈ cs, ChunkOK c) ∧ cs.Pairwise fun a b => a.maxt < b.mint
+
+/-- The compacting chunk merger, repaired statement, for ANY number of well-formed chunk series with
+    arbitrary overlaps and duplicates: if `NewCompactingChunkSeriesMerger(ChainedSeriesMerge)` ends
+    normally, its chunks are time-ordered and pairwise disjoint, each is well-formed, their timestamps
+    are exactly the sorted de-duplicated union of all input timestamps (nothing lost, nothing invented,
+    nothing repeated), and every sample is an input sample — literally, or with its counter-reset hint
+    reset to "unknown" where the chain read it across inputs. -/
+theorem compact_chunks (series : List (List Chunk)) (hwf : ChunkSeriesOK series) (out : List Chunk)
+    (h : compactAll series = (out, .fin)) :
+    (out.Pairwise fun a b => a.maxt < b.mint) ∧ (∀ c ∈ out, ChunkOK c) ∧
+    (out.flatMap (·.samples)).map (·.t) =
+      (((series.flatten.flatMap (·.samples)).map (·.t)).mergeSort (· ≤ ·)).eraseDups ∧
+    ∀ x ∈ out.flatMap (·.samples), ∃ c ∈ series.flatten, ∃ y ∈ c.samples,
+      x = y ∨ (y.kind ≠ .float ∧ y.payload % 4 ≠ 3 ∧ x = { y with payload := y.payload / 4 * 4 }) := by
+  have hp := compactAll_spec series hwf out h
+  refine ⟨hp.ord, hp.ok, ?_, ?_⟩
+  · apply strict_ext
+    · have := smp_sorted out hp.ok hp.ord
+      unfold SortedL at this
+      rw [List.pairwise_map]; exact this
+    · apply eraseDups_strict
+      have := List.pairwise_mergeSort (le := fun (a b : Int) => decide (a ≤ b))
+        (by intro a b c; simp; omega) (by intro a b; simp; omega)
+        ((series.flatten.flatMap (·.samples)).map (·.t))
+      simpa using this
+    · intro t
+      rw [List.mem_eraseDups, List.mem_mergeSort]
+      constructor
+      · intro ht
+        obtain ⟨x, hx, rfl⟩ := List.mem_map.1 ht
+        obtain ⟨y, hy, hxy⟩ := hp.sub x hx
+        exact List.mem_map.2 ⟨y, hy, hxy.t.symm⟩
+      · intro ht
+        obtain ⟨y, hy, rfl⟩ := List.mem_map.1 ht
+        exact hp.cov y hy
+  · intro x hx
+    obtain ⟨y, hy, hxy⟩ := hp.sub x hx
+    obtain ⟨c, hc, hyc⟩ := mem_smp.1 hy
+    exact ⟨c, hc, y, hyc, hxy⟩
+
+example : ChunkSeriesOK [[Chunk.ofSamples [⟨1, .float, 1⟩, ⟨5, .float, 2⟩]],
+    [Chunk.ofSamples [⟨3, .float, 7⟩, ⟨5, .float, 8⟩, ⟨6, .float, 9⟩]]] := by
+  intro cs hcs
+  simp only [List.mem_cons, List.not_mem_nil, or_false] at hcs
+  rcases hcs with rfl | rfl
+  · refine ⟨?_, by simp⟩
+    intro c hc; simp only [List.mem_singleton] at hc; subst hc
+    exact ⟨by decide, by unfold SortedL; decide, by decide, by decide⟩
+  · refine ⟨?_, by simp⟩
+    intro c hc; simp only [List.mem_singleton] at hc; subst hc
+    exact ⟨by decide, by unfold SortedL; decide, by decide, by decide⟩
+
+/-- pass-through keeps a histogram's counter-reset hint, reading through the chain resets it -/
+example : compactAll [[Chunk.ofSamples [⟨1, .hist, 5⟩]]] = ([Chunk.ofSamples [⟨1, .hist, 5⟩]], .fin) ∧
+    chainMerge [[⟨1, .hist, 5⟩]] = some [⟨1, .hist, 4⟩] := by decide
 
 /-- identical duplicate chunks collapse (instance; the general clause is judged on every run) -/
 theorem identical_chunks_collapse_example :
